@@ -107,7 +107,16 @@ fn shape(t: &Ty) -> Ty {
 }
 
 /// Do the two answers differ only in how variables are shared (the D1 signature)?
-fn nonlinear_only(a: &DSol, b: &DSol) -> bool {
+/// Is one answer `Unique` with the identity substitution and the other `Ambig(Unknown)` (the D22 signature)?
+pub fn trivial_unique_vs_unknown(a: &DSol, b: &DSol) -> bool {
+    let trivial_unique = |s: &DSol| match s {
+        DSol::Unique(x) => x.constraints.is_empty() && x.args.iter().enumerate().all(|(i, a)| matches!(a, DArg::Ty(Ty::Var(v)) if *v as usize == i)),
+        _ => false,
+    };
+    (trivial_unique(a) && matches!(b, DSol::Unknown)) || (trivial_unique(b) && matches!(a, DSol::Unknown))
+}
+
+pub fn nonlinear_only(a: &DSol, b: &DSol) -> bool {
     let sub = |s: &DSol| match s {
         DSol::Definite(x) | DSol::Unique(x) | DSol::Suggested(x) => Some(x.clone()),
         _ => None,
